@@ -7,7 +7,8 @@
        relative to that directory, component by component). *)
 From Coq Require Import Bool Arith Ascii String List.
 From CBI Require Import Lib.Res Model.C13p Model.C13fs Model.C13 Spec.C13 Spec.C13db
-  Proofs.C13p Proofs.C13 Proofs.C13db Proofs.C13k Proofs.C13n.
+  Proofs.C13p Proofs.C13 Proofs.C13db Proofs.C13k Proofs.C13n Proofs.C13c2.
+From CBI Require Model.C04 Spec.C04 Proofs.C13c.
 Import ListNotations.
 
 (* For EVERY working directory string that is absolute, EVERY rootdir, directory
@@ -143,13 +144,10 @@ Theorem C13_skips_are_local :
 Proof. exact skips_are_local. Qed.
 Print Assumptions C13_skips_are_local.
 
-(* PARTIAL (database level only): every entry load_database returns is the
-   resolution of some entry of the database, with that entry's own -I values;
-   nothing else comes out.  Missing for the full "only files named by entries,
-   and what they include, are attributed": the include closure through the
-   finder (C04's model); that part is covered only by the differential run on
-   the oracle tree (attribution observed through finder.find). *)
-Theorem C13_only_named_files_partial :
+(* nothing but resolved database entries comes out of load_database: every
+   returned entry is the resolution of some entry of the database, with that
+   entry's own -I values *)
+Theorem C13_outputs_are_entries :
   forall fs cwd rootdir es o w x,
     load_database fs cwd rootdir es = Ok (o, w) -> In x o ->
     exists e f a, In e es /\ e_file e = Some f /\ e_argv e = Some a /\
@@ -157,7 +155,7 @@ Theorem C13_only_named_files_partial :
       exists incs, extract_incs (tl a) = Ok incs /\
         o_incs x = map (inc_path cwd (filedir cwd rootdir (e_dir e))) incs.
 Proof. exact only_named_files. Qed.
-Print Assumptions C13_only_named_files_partial.
+Print Assumptions C13_outputs_are_entries.
 
 (* ---- the whole database: M = S ---- *)
 (* For every well-formed tree, absolute working directory and database that S
@@ -175,6 +173,35 @@ Theorem C13_database :
       map denote_warn w = swarns outs ++ (match opens outs with [] => [SWNoFiles] | _ => [] end).
 Proof. exact load_database_spec. Qed.
 Print Assumptions C13_database.
+
+(* ---- "only files named by entries, and what they include, are attributed" ---- *)
+(* PARTIAL.  Composition with C04's multi-file model of the finder: for every
+   entry load_database returns (which is S's resolution of a database entry),
+   whatever the finder's model attributes to the platform when run on that entry
+   (file, include directories as returned; any -D set and any -include names)
+   belongs to a file REACHABLE from the entry: the entry's file, a -include
+   target, or an answer of the header search (includer's directory, then the
+   entry's include directories) issued from a file already reached.
+   Missing for the full statement: it is proved for translation units made of
+   structured files that the reference preprocessor of Spec/C04.v accepts (no
+   diagnosed redefinition / parse error, enough include depth) - this is the
+   hypothesis of C04_inclusion; and [reach] over-approximates "what they
+   include" (it does not ask that the directive be present in the file). *)
+Theorem C13_only_named_files_partial :
+  forall fs cwd rootdir, wf_fs fs -> isabs cwd = true ->
+  forall es outs,
+    s_db fs (resolve (cwdloc cwd) rootdir) es = Some outs ->
+    exists o w, load_database fs cwd rootdir es = Ok (o, w) /\
+      forall x, In x o ->
+        In (denote_entry x) (opens outs) /\
+        forall (fs4 : Model.C04.fsys) fuel defs forced r,
+          Spec.C04.fs_structured fs4 ->
+          Spec.C04.run_tu_S fs4 fuel (tu_of x defs forced) = Ok r ->
+          exists r', Model.C04.run_tu_M fs4 fuel (tu_of x defs forced) = Ok r' /\
+            forall g id, In (g, id) (Model.C04.assoc r') ->
+                         Proofs.C13c.reach fs4 (tu_of x defs forced) g.
+Proof. exact only_named_files_full. Qed.
+Print Assumptions C13_only_named_files_partial.
 
 (* non-vacuity: a relative `directory` with a '..' in the file and a relative -I *)
 Example C13_nonvacuous :
@@ -214,4 +241,31 @@ Proof.
   split; [vm_compute; reflexivity|].
   split; [|vm_compute; reflexivity].
   exists (s "a.o"), [s "gcc"; s "a.o"]. repeat split.
+Qed.
+
+(* non-vacuity of C13_only_named_files_partial: the entry of C13_nonvacuous_db fed to
+   the finder's model on a two-file tree: a.c includes <h.h>, found in build/inc *)
+Definition ex_fs4 : Model.C04.fsys :=
+  [ (["w"; "root"; "src"; "a.c"]%string,
+       [(0, Model.C01.KPlain (Model.C04.AInclude 0 (Model.C04.IAngle ["h.h"%string]))); (1, Model.C01.KPlain Model.C04.ACode)]);
+    (["w"; "root"; "build"; "inc"; "h.h"]%string, [(0, Model.C01.KPlain Model.C04.ACode)]);
+    (["w"; "root"; "inc"; "h.h"]%string, [(0, Model.C01.KPlain Model.C04.ACode)]) ].
+Example C13_nonvacuous_closure :
+  let x := {| o_file := s "/w/root/src/a.c"; o_incs := [s "/w/root/build/inc"] |} in
+  Spec.C04.fs_structured ex_fs4 /\
+  match Spec.C04.run_tu_S ex_fs4 3 (tu_of x [] []) with
+  | Ok r => map fst (Model.C04.assoc r)
+  | Err _ => []
+  end = [["w"; "root"; "src"; "a.c"]; ["w"; "root"; "build"; "inc"; "h.h"]; ["w"; "root"; "src"; "a.c"]]%string.
+Proof.
+  split; [|vm_compute; reflexivity].
+  intros p ls H. unfold ex_fs4 in H. cbn [Model.C04.fs_get] in H.
+  destruct (Model.C04.path_eqb p _).
+  { inversion H; subst.
+    exists [Spec.C01.IPlain 0 (Model.C04.AInclude 0 (Model.C04.IAngle ["h.h"%string])); Spec.C01.IPlain 1 Model.C04.ACode].
+    reflexivity. }
+  destruct (Model.C04.path_eqb p _).
+  { inversion H; subst. exists [Spec.C01.IPlain 0 Model.C04.ACode]. reflexivity. }
+  destruct (Model.C04.path_eqb p _); [|discriminate].
+  inversion H; subst. exists [Spec.C01.IPlain 0 Model.C04.ACode]. reflexivity.
 Qed.
